@@ -105,6 +105,27 @@ var c06BodyTpls = func() []c06BodyTpl {
 		Spec: nestedSpec, A: strs("x"), B: strs("x", "y"), Dyn: true})
 	out = append(out, c06BodyTpl{Name: "dyn-nested-foreach/outer-marked-inner-other-mark", Src: "dynamic \"blk\" {\n  for_each = k\n  content {\n    v = blk.value\n    dynamic \"inner\" {\n      for_each = o\n      content {\n        w = \"${blk.value}-${inner.value}\"\n      }\n    }\n  }\n}\n",
 		Spec: nestedSpec, A: strs("x"), B: strs("y"), Dyn: true})
+	// generated blocks that decode to null individually: how many there are, and
+	// whether optional content exists in them, still depends on the marked value
+	for _, kind := range []string{"list", "tuple", "set"} {
+		kind := kind
+		nullSpec := func() hcldec.Spec {
+			nested := &hcldec.AttrSpec{Name: "v", Type: cty.String}
+			switch kind {
+			case "list":
+				return &hcldec.BlockListSpec{TypeName: "blk", Nested: nested}
+			case "set":
+				return &hcldec.BlockSetSpec{TypeName: "blk", Nested: nested}
+			}
+			return &hcldec.BlockTupleSpec{TypeName: "blk", Nested: nested}
+		}
+		out = append(out, c06BodyTpl{Name: "dyn-foreach-count-of-null-blocks/" + kind, Src: "dynamic \"blk\" {\n  for_each = k\n  content {}\n}\n", Spec: nullSpec, A: strs("p"), B: strs("p", "q"), Dyn: true})
+		out = append(out, c06BodyTpl{Name: "dyn-foreach-null-or-not/" + kind, Src: "dynamic \"blk\" {\n  for_each = k\n  content {\n    v = blk.value == \"x\" ? \"set\" : null\n  }\n}\n", Spec: nullSpec, A: strs("y"), B: strs("x"), Dyn: true})
+	}
+	out = append(out, c06BodyTpl{Name: "dyn-foreach-inner-block-absent-or-not", Src: "dynamic \"blk\" {\n  for_each = k\n  content {\n    dynamic \"inner\" {\n      for_each = blk.value == \"x\" ? [\"i\"] : []\n      content {\n        v = \"static\"\n      }\n    }\n  }\n}\n",
+		Spec: func() hcldec.Spec {
+			return &hcldec.BlockTupleSpec{TypeName: "blk", Nested: &hcldec.BlockSpec{TypeName: "inner", Nested: hcldec.ObjectSpec{"v": &hcldec.AttrSpec{Name: "v", Type: cty.String}}}}
+		}, A: strs("y"), B: strs("x"), Dyn: true})
 	out = append(out, c06BodyTpl{Name: "attr-next-to-other-mark", Src: "a = [k, o]\n", Spec: func() hcldec.Spec {
 		return hcldec.ObjectSpec{"a": &hcldec.AttrSpec{Name: "a", Type: cty.DynamicPseudoType}}
 	}, A: strv("x"), B: strv("y")})
